@@ -6,6 +6,7 @@ import (
 	"fmt"
 	"go/token"
 	"go/types"
+	"sort"
 	"strings"
 
 	"golang.org/x/tools/go/ssa"
@@ -18,6 +19,18 @@ type symWalker struct {
 	mem  map[string]linForm
 	memo map[ssa.Value]linForm
 	path *upath
+	cur  int // index (in path.Instrs) of the instruction being evaluated: selects the helper frame for parameters
+}
+
+// argOf resolves a helper parameter to the argument of the call whose body is being evaluated.
+func (w *symWalker) argOf(p *ssa.Parameter) (ssa.Value, bool) {
+	if len(w.path.Frames) > 0 {
+		if a := w.path.valueAt(p, w.cur); a != ssa.Value(p) {
+			return a, true
+		}
+	}
+	a, ok := w.path.Arg[p]
+	return a, ok
 }
 
 func newSymWalker(path *upath) *symWalker {
@@ -33,7 +46,7 @@ func isIntegerType(t types.Type) bool {
 func (w *symWalker) apath(v ssa.Value) string {
 	switch x := v.(type) {
 	case *ssa.Parameter:
-		if a, ok := w.path.Arg[x]; ok {
+		if a, ok := w.argOf(x); ok {
 			return w.apath(a)
 		}
 		return x.Name()
@@ -62,12 +75,12 @@ func (w *symWalker) apath(v ssa.Value) string {
 }
 
 func (w *symWalker) lin(v ssa.Value) linForm {
-	return linOfX(v, w.sym, w.path.phi, func(x ssa.Value) (linForm, bool) {
+	return linOfX(v, w.sym, func(ph *ssa.Phi) ssa.Value { return w.path.phiAt(ph, w.cur) }, func(x ssa.Value) (linForm, bool) {
 		if f, ok := w.memo[x]; ok {
 			return f, true
 		}
 		if p, ok := x.(*ssa.Parameter); ok {
-			if a, ok := w.path.Arg[p]; ok {
+			if a, ok := w.argOf(p); ok {
 				return w.lin(a), true
 			}
 		}
@@ -147,6 +160,7 @@ func evalPath(path upath) *pathFacts {
 	ci := 0
 	var stack []ssa.Value
 	for idx, in := range path.Instrs {
+		w.cur = idx
 		w.step(in)
 		pf.instrs = append(pf.instrs, in)
 		if h := helperCallee(in); h != nil && idx+1 < len(path.Instrs) && path.Instrs[idx+1].Parent() == h {
@@ -776,6 +790,158 @@ func replayRules(c *Ctx, which string) {
 		}
 	}
 	maskWidth(c, newBig, lshF, bigMsb)
+	lshTerms(c, lshF, bigBits, bigMsb)
+}
+
+// lshTerms: C04/C05 R7 - the left shift by n = 64q + r writes into every word i exactly
+// (bits[i] << n) | (bits[i-q] << r, if i-q >= 0) | (bits[i-q-1] >> (64-r), if i-q-1 >= 0):
+// decided on the paths of one loop iteration by comparing the set of shifted-word terms of the stored
+// value with the set the path's conditions call for.
+func lshTerms(c *Ctx, lsh *ssa.Function, bitsField, msbField string) {
+	o := c.Obl("R7", fname(lsh), "Lsh(n), n = 64q+r, stores into word i exactly (bits[i] << n) | bits[i-q] << r (when i-q >= 0) | bits[i-q-1] >> (64-r) (when i-q-1 >= 0); every word is written; only the top word is masked", 2)
+	T := "replaydetector.fixedBigInt"
+	paths, ok := enumIterPathsU(lsh, 5000)
+	if !ok {
+		o.Undecide("the paths of Lsh could not be enumerated")
+		return
+	}
+	n := lsh.Params[1]
+	nF := linSym(n.Name())
+	q := linSym("(" + nF.String() + " / +64)")
+	r := linSym("(" + nF.String() + " % +64)")
+	type term struct {
+		idx, amt linForm
+		right    bool
+	}
+	key := func(t term) string {
+		d := "<<"
+		if t.right {
+			d = ">>"
+		}
+		return fmt.Sprintf("bits[%s]%s(%s)", t.idx, d, t.amt)
+	}
+	nStores := 0
+	seenMsg := map[string]bool{}
+	fail := func(pos token.Pos, f string, a ...interface{}) {
+		m := fmt.Sprintf(f, a...)
+		if !seenMsg[m] {
+			seenMsg[m] = true
+			o.Fail(pos, "%s", m)
+		}
+	}
+	for pi := range paths {
+		pt := paths[pi]
+		pf := evalPath(pt)
+		for idx, in := range pt.Instrs {
+			st, ok := in.(*ssa.Store)
+			if !ok {
+				continue
+			}
+			ia, ok := st.Addr.(*ssa.IndexAddr)
+			if !ok || !isFieldLoad(ia.X, T, bitsField) {
+				continue
+			}
+			I := pf.w.lin(ia.Index)
+			// collect the terms of the stored value along this path
+			var terms []term
+			masked, bad := false, false
+			var walk func(v ssa.Value, d int)
+			walk = func(v ssa.Value, d int) {
+				v = pt.valueAt(v, idx)
+				if d > 12 {
+					bad = true
+					return
+				}
+				if c0, isC := v.(*ssa.Const); isC {
+					if k, ok := constInt(c0); ok && k == 0 {
+						return
+					}
+				}
+				b, isB := v.(*ssa.BinOp)
+				if !isB {
+					// an unshifted word
+					if u, ok := v.(*ssa.UnOp); ok && u.Op == token.MUL {
+						if ia2, ok := u.X.(*ssa.IndexAddr); ok && isFieldLoad(ia2.X, T, bitsField) {
+							terms = append(terms, term{pf.w.lin(ia2.Index), linConst(0), false})
+							return
+						}
+					}
+					bad = true
+					return
+				}
+				switch b.Op {
+				case token.OR:
+					walk(b.X, d+1)
+					walk(b.Y, d+1)
+				case token.AND:
+					if isFieldLoad(b.Y, T, msbField) {
+						masked = true
+						walk(b.X, d+1)
+					} else if isFieldLoad(b.X, T, msbField) {
+						masked = true
+						walk(b.Y, d+1)
+					} else {
+						bad = true
+					}
+				case token.SHL, token.SHR:
+					u, ok := pt.valueAt(b.X, idx).(*ssa.UnOp)
+					if !ok || u.Op != token.MUL {
+						bad = true
+						return
+					}
+					ia2, ok := u.X.(*ssa.IndexAddr)
+					if !ok || !isFieldLoad(ia2.X, T, bitsField) {
+						bad = true
+						return
+					}
+					terms = append(terms, term{pf.w.lin(ia2.Index), pf.w.lin(b.Y), b.Op == token.SHR})
+				default:
+					bad = true
+				}
+			}
+			walk(st.Val, 0)
+			if bad {
+				fail(st.Pos(), "Lsh stores a value into the word array that is not an OR of shifted words")
+				continue
+			}
+			// the truncation of the top word: bits[top] &= mask
+			if masked && len(terms) == 1 && terms[0].idx.eq(I) && terms[0].amt.eq(linConst(0)) {
+				continue
+			}
+			if masked {
+				fail(st.Pos(), "Lsh masks a word while shifting it (only the top word is truncated, after the shift)")
+			}
+			nStores++
+			want := map[string]bool{key(term{I, nF, false}): true}
+			src := I.add(q, -1)
+			if pf.hasIneq(src.add(linConst(1), 1)) { // i-q >= 0
+				want[key(term{src, r, false})] = true
+				if pf.hasIneq(src) || pf.hasIneq(src.add(linConst(-1), 1).add(linConst(1), 1)) { // i-q-1 >= 0
+					want[key(term{src.add(linConst(-1), 1), linConst(64).add(r, -1), true})] = true
+				}
+			}
+			got := map[string]bool{}
+			for _, t := range terms {
+				got[key(t)] = true
+			}
+			var gs, ws []string
+			for k := range got {
+				gs = append(gs, k)
+			}
+			for k := range want {
+				ws = append(ws, k)
+			}
+			sort.Strings(gs)
+			sort.Strings(ws)
+			o.Site(st.Pos(), "word %s := %s", I, strings.Join(gs, " | "))
+			if strings.Join(gs, "|") != strings.Join(ws, "|") {
+				fail(st.Pos(), "Lsh writes %s into word %s; on this path the shift by n = 64q+r requires %s (bits of accepted numbers are lost or stale bits survive)", strings.Join(gs, " | "), I, strings.Join(ws, " | "))
+			}
+		}
+	}
+	if nStores == 0 {
+		o.Fail(lsh.Pos(), "Lsh never writes a shifted word")
+	}
 }
 
 // pathInitStore: the store to latestSeq happens on the !init edge (window positioning).
